@@ -315,7 +315,7 @@ def call_forms(pid):
               ("dist(p, l)", (2, 3), lambda P: [("(p, l)", lambda: G.dist(P["p2"], P["l0"])), ("(l, p)", lambda: G.dist(P["l0"], P["p2"])), ("p=, q=", lambda: G.dist(p=P["p2"], q=P["l0"]))]),
               ("dist(p, seg)", (2, 3), lambda P: [("(p, s)", lambda: G.dist(P["p2"], P["s0"])), ("(s, p)", lambda: G.dist(P["s0"], P["p2"]))]),
               ("dist(p, e)", (3,), lambda P: [("(p, e)", lambda: G.dist(P["p3"], P["e0"])), ("(e, p)", lambda: G.dist(P["e0"], P["p3"]))]),
-              ("angle(l, m)", (2,), lambda P: [("(l, m)", lambda: G.angle(P["l0"], P["l1"])), ("-(m, l)", lambda: -G.angle(P["l1"], P["l0"]))])]
+              ("angle(l, m)", (2,), lambda P: [("(l, m)", lambda: G.angle(P["l0"], P["l1"])), ("-(m, l)", lambda: -G.angle(P["l1"], P["l0"]))], "angle")]
     if pid == "C07":
         E += [("t*p", (2, 3), lambda P: [("t * x", lambda: P["t0"] * P["p0"]), ("t.apply(x)", lambda: P["t0"].apply(P["p0"])), ("apply(other=)", lambda: P["t0"].apply(other=P["p0"]))]),
               ("t*l", (2, 3), lambda P: [("t * x", lambda: P["t0"] * P["l0"]), ("t.apply(x)", lambda: P["t0"].apply(P["l0"]))]),
@@ -349,7 +349,7 @@ def call_forms_strategy(pid):
     from . import common as C
     from . import zoo as Z
 
-    names = [(nm, d) for nm, dims, _ in call_forms(pid) for d in dims]
+    names = [(e[0], d) for e in call_forms(pid) for d in e[1]]
 
     @st.composite
     def strat(draw, tier="quick"):
@@ -364,10 +364,10 @@ def run_call_forms(pid):
     from . import ops as O
     from .runner import Checker, Fail, call
 
-    table = {(nm, d): build for nm, dims, build in call_forms(pid) for d in dims}
+    table = {(e[0], d): (e[2], e[3] if len(e) > 3 else "auto") for e in call_forms(pid) for d in e[1]}
 
     def run(c):
-        build = table.get((c["entry"], c["d"]))
+        build, cmp = table.get((c["entry"], c["d"]), (None, None))
         if build is None:
             raise Skip("unknown entry")
         pool = O.pool_for(c["d"], c["v"])
@@ -390,7 +390,7 @@ def run_call_forms(pid):
             if base_name is None:
                 base_name, base = fname, o
                 continue
-            ok, detail = O.same(base, o, "auto", 1e-9)
+            ok, detail = O.same(base, o, cmp, 1e-9)  # cmp "angle": equal modulo pi
             if not ok:
                 ck.add(Fail("MISMATCH", f"call-forms:{c['entry']}:d{c['d']}:{fname}=={base_name}", str(detail)[:300]))
         return ck.result()
